@@ -44,8 +44,13 @@ pub fn record_parse(opts: &Opts) -> i32 {
             }
             "soup" => { let n = 7 + rng.below(34); rand_word_soup(&mut rng, n) }
             "mutate" => { let d = 1 + rng.below(3); let base = rand_expr_text(&mut rng, d, false); mutate(&mut rng, &base) }
-            "layout" => { let d = 1 + rng.below(5); let e = rand_expr_text(&mut rng, d, true);
-                          format!("{}{}{}", ["", " ", "\t", "\n"][rng.below(4)], e, ["", " ", "\r\n", "\t"][rng.below(4)]) }
+            "layout" => { let d = 1 + rng.below(5);
+                          let e = match rng.below(6) { 0 => String::new(), _ => rand_expr_text(&mut rng, d, true) };
+                          let nopt = if e.is_empty() { 1 + rng.below(3) } else if rng.chance(1, 3) { 1 + rng.below(2) } else { 0 };
+                          let mut words: Vec<String> = (0..nopt).map(|_| ["-depth", "-threads 4", "-threads 16"][rng.below(3)].to_string()).collect();
+                          if !e.is_empty() { words.push(e); }
+                          let sep = BLANKS[rng.below(BLANKS.len())];
+                          format!("{}{}{}", ["", " ", "\t", "\n"][rng.below(4)], words.join(sep), ["", " ", "\r\n", "\t", "  "][rng.below(5)]) }
             "options" => {
                 let d = 1 + rng.below(3);
                 let mut words: Vec<String> = vec![];
@@ -119,7 +124,7 @@ pub fn record_compile(opts: &Opts) -> i32 {
     let mut out = out.lock();
     for _ in 0..count {
         let sz = 1 + rng.below(size);
-        let t = if opts.get("profile") == Some("chain") { let n = 1 + size / 2 + rng.below(size / 2 + 1); rand_chain(&mut rng, n) } else { rand_tree(&mut rng, sz, &p) };
+        let t = if opts.get("profile") == Some("chain") { let n = if size >= 200 { size - rng.below(20) } else { 1 + size / 2 + rng.below(size / 2 + 1) }; rand_chain(&mut rng, n) } else { rand_tree(&mut rng, sz, &p) };
         let mut o = lipe_find_parser::RunOptions::default();
         if rng.chance(1, 3) || opts.get("threads").is_some() && rng.chance(3, 4) { o.threads = Some(rand_u32(&mut rng)); }
         if rng.chance(1, 4) { o.depth = true; }
@@ -171,7 +176,15 @@ pub fn record_api(opts: &Opts) -> i32 {
     for k in 0..count {
         let d = 2 + rng.below(4);
         // biased to many matchers / printers so that hash-table iteration order would show
-        if k % 3 == 0 {
+        if k % 11 == 5 {
+            // a time test in front of a construct the target refuses, then (next visit) time tests alone
+            exprs.push(["-mmin -5 -user root", "-atime +3 -nouser", "-ctime 2 -o -regex x"][rng.below(3)].to_string());
+            exprs.push("-mmin -5 -o -amin +2".to_string());
+        } else if k % 7 == 3 {
+            // user text that looks like a placeholder a renderer might substitute
+            let w = ["{mdt}", "{}", "%s", "{path}", "$mdt", "@MDT@", "__MDT__", "{0}", "~a", "MDT"][((k / 7) % 10) as usize];
+            exprs.push(match rng.below(4) { 0 => format!("-name {}", w), 1 => format!("-name backup-{}.img -print", w), 2 => format!("-type f -fprint /tmp/{}.list", w), _ => format!("-printf 'x{}y\\n' -o -pool {}", w, w) });
+        } else if k % 3 == 0 {
             let n = 4 + rng.below(10);
             let parts: Vec<String> = (0..n).map(|_| match rng.below(7) {
                 0 => format!("-name n{}*", rng.below(6)), 1 => format!("-iname N{}", rng.below(6)), 2 => format!("-fprint f{}", rng.below(5)),
@@ -185,6 +198,9 @@ pub fn record_api(opts: &Opts) -> i32 {
     let mut order: Vec<usize> = vec![];
     for rep in 0..3 { for i in 0..exprs.len() { order.push((i * 7 + rep * 3) % exprs.len()); } }
     let mut seq = 0u64;
+    // let the clock advance a few times during the history (right after failed compilations), so that
+    // anything carried over from an earlier call shows against the [t0,t1] window of a later one
+    let mut sleeps_left = opts.num("sleeps", 3);
     for idx in order {
         let input = &exprs[idx];
         let obs = run_parse(input);
@@ -193,7 +209,12 @@ pub fn record_api(opts: &Opts) -> i32 {
         if let ParseOut::Ok(o, t) = &obs {
             let c = run_compile(t, o, &paths);
             seq += 1;
+            let failed = c["st"].as_str() != Some("ok");
             emit(&mut out, &json!({"ev":"compile","proc":proc_id,"seq":seq,"eid":idx,"i":cps(input),"t":expr_to_json(t),"o":opts_to_json(o),"c":c}));
+            if failed && sleeps_left > 0 {
+                sleeps_left -= 1;
+                std::thread::sleep(std::time::Duration::from_millis(1100));
+            }
         }
     }
     0
@@ -254,7 +275,17 @@ pub fn total_corpus(rng: &mut Rng, count: usize) -> Vec<String> {
                 s.truncate(4096);
                 v.push(s);
             }
-            6 => v.push(rand_numeric_primary(rng)),
+            6 => {
+                if rng.chance(1, 2) { v.push(rand_numeric_primary(rng)); }
+                else {
+                    // long words of mixed 1..4-byte characters, as unknown word or as a bad argument
+                    const CH: &[char] = &['a', 'é', '日', '𝄞', 'ß', 'x', '-', '本'];
+                    let n = 1 + rng.below(70);
+                    let w: String = (0..n).map(|_| CH[rng.below(CH.len())]).collect();
+                    let pre = ["", "-", "-uid ", "-size ", "-type ", "-perm ", "-name x -o -", "-threads ", "-printf %", "-amin +"][rng.below(10)];
+                    v.push(format!("{}{}{}", pre, ["", "a", "ab", "abc"][rng.below(4)], w));
+                }
+            }
             _ => { let p = rand_primary(rng); v.push(mutate(rng, &p)); }
         }
     }
